@@ -44,4 +44,47 @@ def builtin_columns_statement : Prop :=
     CivilSorted (resetToBuiltinUTC off).val ∧ Separated (resetToBuiltinUTC off).val ∧
     TimesInRange (resetToBuiltinUTC off).val ∧ FirstEntryRoom (resetToBuiltinUTC off).val
 
+/-! ### proofs (helper lemmas: Cctz/Proofs/LoadTables.lean and Cctz/Proofs/Lt*.lean) -/
+
+theorem checkers_sound : checkers_sound_statement := fun z =>
+  ⟨Lt.tableWFb_sound z, Lt.civilSortedb_sound z, Lt.civilColsb_sound z, Lt.separatedb_sound z,
+   Lt.timesInRangeb_sound z, Lt.firstEntryRoomb_sound z⟩
+
+theorem load_columns : load_columns_statement := Lt.load_columns
+
+theorem load_times : load_times_statement := Lt.load_times
+
+theorem load_wf : load_wf_statement := Lt.load_wf
+
+theorem load_sentinels : load_sentinels_statement := Lt.load_sentinels
+
+theorem builtin_columns : builtin_columns_statement := fun off _ _ => Lt.builtin_columns off
+
+/-! ### the hypotheses are satisfiable -/
+
+/-- a version-1 TZif file with two transitions (at 3600 to a DST type of offset +1h, at 65536 back
+to type 0) and two types -/
+def sampleFile : Bytes :=
+  [84, 90, 105, 102, 0] ++ List.replicate 15 0 ++
+  [0,0,0,0, 0,0,0,0, 0,0,0,0, 0,0,0,2, 0,0,0,2, 0,0,0,8] ++
+  [0,0,14,16, 0,1,0,0] ++ [1, 0] ++ [0,0,0,0, 0, 0] ++ [0,0,14,16, 1, 4] ++
+  [85, 84, 67, 0, 68, 83, 84, 0]
+
+/-- the hypotheses of `load_columns`, `load_times`, `load_wf`, `load_sentinels` hold of it: it loads
+without a flag into a table of three entries (the first sentinel and the two transitions) that is
+not extended -/
+example : (load {} sampleFile).ok ∧
+    (match (load {} sampleFile).val with
+     | .ok z => z.transitions.size == 3 && !z.extended && z.types.size == 2
+     | _ => false) = true := by decide +kernel
+
+/-- and the checkers of `checkers_sound` answer `true` on that table -/
+example : (match (load {} sampleFile).val with
+     | .ok z => tableWFb z && civilSortedb z && civilColsb z && separatedb z && timesInRangeb z &&
+         firstEntryRoomb z
+     | _ => false) = true := by decide +kernel
+
+/-- the hypotheses of `builtin_columns` are satisfiable -/
+example : (-86400 : Int) ≤ 3600 ∧ (3600 : Int) ≤ 86400 := by decide
+
 end Cctz.C12Tables
